@@ -21,6 +21,15 @@ from checks import enc_lib as E
 
 LEVEL = "model_checking"
 
+import time as _time
+_t0 = [_time.time()]
+
+
+def T(what):
+    now = _time.time()
+    common.log("  stage %-28s %.1fs" % (what, now - _t0[0]))
+    _t0[0] = now
+
 # streams 5 and 15 of the catalogue contain zero-length RLE runs with non-zero value bytes: there the
 # one-shot and the streaming decoder are wrong in the same way, which is C12's finding (decode
 # direction), not a disagreement between streaming and one-shot decoding
